@@ -12,6 +12,32 @@ EXPLAIN = "explain"
 AXIOM_ALLOW = []
 SHARD = 3000
 THEOREMS = [
+    ("c06_new",
+     "forall M : Z, 2 <= M < 2 ^ 31 -> forall v : Z, - 2 ^ 63 <= v < 2 ^ 63 -> new M v = Some (v mod M) /\\ 0 <= v mod M < M"),
+    ("c06_add",
+     "forall M : Z, 2 <= M < 2 ^ 31 -> forall x y : Z, 0 <= x < M -> 0 <= y < M -> add M x y = Some ((x + y) mod M)"),
+    ("c06_sub",
+     "forall M : Z, 2 <= M < 2 ^ 31 -> forall x y : Z, 0 <= x < M -> 0 <= y < M -> sub M x y = Some ((x - y) mod M)"),
+    ("c06_mul",
+     "forall M : Z, 2 <= M < 2 ^ 31 -> forall x y : Z, 0 <= x < M -> 0 <= y < M -> mul M x y = Some ((x * y) mod M)"),
+    ("c06_neg",
+     "forall M : Z, 2 <= M < 2 ^ 31 -> forall x : Z, 0 <= x < M -> neg M x = Some ((- x) mod M)"),
+    ("c06_pow",
+     "forall M x d : Z, 2 <= M < 2 ^ 31 -> 0 <= x < M -> 0 <= d < 2 ^ 64 -> pow M x d = Some ((x ^ d) mod M)"),
+    ("c06_inv_no_overflow",
+     "forall M : Z, 2 <= M < 2 ^ 31 -> forall v : Z, 0 <= v < M -> forall fuel : positive, inv_loop M fuel v <> inr None"),
+    ("c06_inv_terminates",
+     "forall M : Z, 2 <= M < 2 ^ 31 -> forall v : Z, 0 <= v < M -> forall fuel : positive, v < Zpos fuel -> exists x, inv_loop M fuel v = inr (Some x) /\\ Z.abs x <= M /\\ (x * v) mod M = Z.gcd v M mod M"),
+    ("c06_inv_gcd",
+     "forall M : Z, 2 <= M < 2 ^ 31 -> forall v : Z, 0 <= v < M -> exists r, inv M v = Some r /\\ 0 <= r < M /\\ (r * v) mod M = Z.gcd v M mod M"),
+    ("c06_inv_correct",
+     "forall M : Z, 2 <= M < 2 ^ 31 -> forall v : Z, 0 <= v < M -> Z.gcd v M = 1 -> exists r, inv M v = Some r /\\ 0 <= r < M /\\ (r * v) mod M = 1"),
+    ("c06_div",
+     "forall M x y : Z, 2 <= M < 2 ^ 31 -> 0 <= x < M -> 0 <= y < M -> Z.gcd y M = 1 -> exists q, div M x y = Some q /\\ 0 <= q < M /\\ mul M q y = Some x"),
+    ("c06_canonical_eq",
+     "forall M a b : Z, 2 <= M < 2 ^ 31 -> - 2 ^ 63 <= a < 2 ^ 63 -> - 2 ^ 63 <= b < 2 ^ 63 -> exists x y, new M a = Some x /\\ new M b = Some y /\\ 0 <= x < M /\\ 0 <= y < M /\\ (eqb x y = true <-> a mod M = b mod M)"),
+    ("c06_bound_needed_refuted_at_2_31",
+     "(exists v, - 2 ^ 63 <= v < 2 ^ 63 /\\ new (2 ^ 31) v <> Some (v mod 2 ^ 31)) /\\ (exists v, 0 <= v < 2 ^ 31 /\\ Z.gcd v (2 ^ 31) = 1 /\\ inv_loop (2 ^ 31) big_fuel v = inr None)"),
 ]
 RULE = ("moduli 2,3,4,6,7,11,12 (exhaustive: every operand pair in [0,M)^2 for + - * / == and the assigning forms, every "
         "residue for neg/inv/pow/new incl. non-canonical constructor arguments), 65536, 65537, 998244353, 1000000007, "
